@@ -20,6 +20,7 @@ NEGATIVE = [
     ("SimpleDBDisk.tla", "NEG_Disk_sizerotate.cfg", "size-triggered WAL rotation without flush (S11)"),
     ("SimpleDBDisk.tla", "NEG_Disk_walorder.cfg", "recovery unlinks WAL files in any order (S12)"),
     ("SimpleDBDisk.tla", "NEG_Disk_renamefirst.cfg", "recovery renames the merged table before all inputs are gone (repaired by 42e1cd1)"),
+    ("Resources.tla", "NEG_Resources_release.cfg", "Close releases tables before the compactor is joined"),
     ("SimpleDBApi.tla", "NEG_SimpleDBApi.cfg", "PutBytes logs before validating (S5)"),
     ("Lineage.tla", "NEG_Lineage3.cfg", "lineages with always-dropped tombstones"),
 ]
@@ -71,5 +72,19 @@ def main(args):
         _, bad3, _ = dbrun.judge_db(p, o, "corrupted candidate metadata")
         log("[selftest] corrupted candidate metadata -> %s" % ([b["clause"] for b in bad3][:2] or "ACCEPTED"))
         ok = ok and bool(bad3)
+    # (d) resource trace specification: a session with manual compaction, then drop one install / one close.flusher line
+    from props import c19
+    steps = c19.session(random.Random(3), 40, bg=False)
+    rtrace = dbrun.run_db_batch(binary, "selftest-res", [steps], seed=7, env={"GOGC": "off"})
+    rl = [{"t": "reset", "case": "selftest"}] + c19.res_lines(common.read_ndjson(rtrace))
+    for what, drop in (("pristine", None), ("dropped install", "install"), ("dropped close.flusher", "close.flusher")):
+        c = list(rl)
+        if drop:
+            c.pop([i for i, e in enumerate(c) if e["t"] == drop][1])
+        p = rtrace + ".res-" + (drop or "pristine")
+        common.write_ndjson(p, c)
+        rnok, rbad, _ = judge.judge_trace("ResTrace.tla", "ResTrace.cfg", p, o, "resource trace " + what)
+        log("[selftest] resource trace, %s -> %s" % (what, [b["clause"] for b in rbad][:2] or "accepted (%s steps)" % rnok))
+        ok = ok and (bool(rbad) if drop else not rbad)
     log("[selftest] %s" % ("OK" if ok else "FAILED"))
     return 0 if ok else 2
